@@ -43,6 +43,11 @@ var envBases = []string{
 	replaceOnce(envInv0, `"code":"SAMPLE-001",`, ``),
 	replaceOnce(envInv0, `"name":"Provide One S.L."`, `"name":""`),
 	replaceOnce(envInv0, `"rate":"standard"`, `"rate":"bogus"`),
+	// 4 / 5: an order with and without its code; 6 / 7: a delivery with and without its code (the same life cycle rules)
+	replaceOnce(envInv0, `bill/invoice`, `bill/order`),
+	replaceOnce(replaceOnce(envInv0, `bill/invoice`, `bill/order`), `"code":"SAMPLE-001",`, ``),
+	replaceOnce(envInv0, `bill/invoice`, `bill/delivery`),
+	replaceOnce(replaceOnce(envInv0, `bill/invoice`, `bill/delivery`), `"code":"SAMPLE-001",`, ``),
 }
 
 func replaceOnce(s, old, new string) string {
@@ -108,6 +113,31 @@ func (m *envMachine) insert(base int64) string {
 func (m *envMachine) invoice() *bill.Invoice {
 	inv, _ := m.env.Extract().(*bill.Invoice)
 	return inv
+}
+
+// docLines / docCode: the lines and the code of whatever billing document the envelope holds.
+func (m *envMachine) docLines() []*bill.Line {
+	switch d := m.env.Extract().(type) {
+	case *bill.Invoice:
+		return d.Lines
+	case *bill.Order:
+		return d.Lines
+	case *bill.Delivery:
+		return d.Lines
+	}
+	return nil
+}
+
+func (m *envMachine) docCode() *cbc.Code {
+	switch d := m.env.Extract().(type) {
+	case *bill.Invoice:
+		return &d.Code
+	case *bill.Order:
+		return &d.Code
+	case *bill.Delivery:
+		return &d.Code
+	}
+	return nil
 }
 
 // surgery re-reads the envelope from its own JSON after editing the generic JSON tree.
@@ -182,12 +212,12 @@ func (m *envMachine) apply(op V) (res string) {
 	case 0: // calculate
 		return envErrKey(e.Calculate())
 	case 1: // edit the document (no recalculation)
-		inv := m.invoice()
-		if inv == nil || len(inv.Lines) == 0 || inv.Lines[0].Item == nil || inv.Lines[0].Item.Price == nil {
+		lines := m.docLines()
+		if len(lines) == 0 || lines[0] == nil || lines[0].Item == nil || lines[0].Item.Price == nil {
 			return "skip"
 		}
-		p := inv.Lines[0].Item.Price.Add(num.MakeAmount(100, 2))
-		inv.Lines[0].Item.Price = &p
+		p := lines[0].Item.Price.Add(num.MakeAmount(100, 2))
+		lines[0].Item.Price = &p
 		return "ok"
 	case 2: // sign k
 		if len(a) < 1 {
@@ -225,15 +255,15 @@ func (m *envMachine) apply(op V) (res string) {
 		return envErrKey(e.Verify(ks...))
 	case 11: // serialise and parse again
 		return m.surgery(nil)
-	case 12: // toggle the invoice code
-		inv := m.invoice()
-		if inv == nil {
+	case 12: // toggle the document's code
+		code := m.docCode()
+		if code == nil {
 			return "skip"
 		}
-		if inv.Code == "" {
-			inv.Code = "SAMPLE-001"
+		if *code == "" {
+			*code = "SAMPLE-001"
 		} else {
-			inv.Code = ""
+			*code = ""
 		}
 		return "ok"
 	case 13: // insert base document b
